@@ -155,7 +155,7 @@ func GenCActions(n int, minLen, maxLen int) *rapid.Generator[[]CAction] {
 		return e
 	})
 	one := rapid.Custom(func(t *rapid.T) CAction {
-		a := CAction{Kind: rapid.SampledFrom([]string{"new", "new", "edit", "edit", "edit", "edit", "edit", "push", "push", "pull", "pull", "pull", "remove", "cachesize", "reopen", "newident", "mutident"}).Draw(t, "kind"),
+		a := CAction{Kind: rapid.SampledFrom([]string{"new", "new", "edit", "edit", "edit", "edit", "edit", "push", "push", "pull", "pull", "pull", "remove", "cachesize", "reopen", "rebuild", "newident", "mutident"}).Draw(t, "kind"),
 			R: rapid.IntRange(0, n-1).Draw(t, "r"), Time: rapid.Int64Range(1_000_000, 2_000_000_000).Draw(t, "time")}
 		switch a.Kind {
 		case "new":
@@ -198,6 +198,7 @@ type CExecResult struct {
 	Reopened            bool
 	Removed             string
 	EditedBug           string
+	Rebuilt             bool
 }
 
 // Exec runs one action through the cache API. Handles are resolved anew for every action, the way
@@ -325,6 +326,26 @@ func (w *CWorld) Exec(a CAction) (res CExecResult, err error) {
 			return res, &ExecError{"reopen/" + Normalize(err.Error()), err.Error()}
 		}
 		res.Reopened = true
+	case "rebuild":
+		// the cache files are lost (or of an older format): the next open builds the cache from git, and the
+		// process goes on working with that instance
+		if err := r.Cache.Close(); err != nil {
+			return res, &ExecError{"close/" + Normalize(err.Error()), err.Error()}
+		}
+		if err := os.RemoveAll(filepath.Join(r.Path, ".git", "git-bug", "cache")); err != nil {
+			return res, err
+		}
+		repo, err := repository.OpenGoGitRepo(r.Path, "git-bug", nil)
+		if err != nil {
+			return res, err
+		}
+		nrc, err := cache.NewRepoCacheNoEvents(repo)
+		if err != nil {
+			return res, &ExecError{"rebuild/" + Normalize(err.Error()), err.Error()}
+		}
+		r.Repo, r.Cache = repo, nrc
+		res.Reopened = true
+		res.Rebuilt = true
 	case "newident":
 		if _, err := rc.Identities().NewRaw(a.Title, "x@example.org", "", "", nil, map[string]string{"origin-id": fmt.Sprintf("extra-%d", w.seq)}); err != nil {
 			return res, &ExecError{"new-identity/" + Normalize(err.Error()), err.Error()}
